@@ -9,7 +9,7 @@
 From Coq Require Import NArith List Permutation.
 From Blue Require Import Gen.Const_Setsum Setsum.Model Setsum.Proofs Setsum.Props_C14.
 From Blue Require Import Books.Model Books.ProofsGroup Books.ProofsChain Books.ProofsVerify Books.ProofsGc
-                         Books.ProofsStore Books.ProofsTamper.
+                         Books.ProofsStore Books.ProofsTamper Books.ProofsDigit.
 Import ListNotations.
 Open Scope N_scope.
 
@@ -124,6 +124,23 @@ Proof.
   apply verify_frags_rejects; try assumption; [apply zero_canonical|].
   apply verify_one_rejects_first_O; try assumption.
   now apply frags_end_canonical; [apply zero_canonical|..].
+Qed.
+
+(* 4b. PARTIAL.  Full statement wanted: "if cs' is the 64-character hexdigest of a canonical setsum s
+   with ONE character replaced by a different hex digit, then from_hexdigest cs' = Some s' with
+   s' <> s" (so that a changed digit always is a changed setsum in the sense of theorem 4).
+   Proved here: its arithmetic core.  One changed hex digit changes one 32-bit little-endian column
+   by d * 16^pos (1 <= d <= 15, pos < 8); from_digest reduces a column >= p by one subtraction of p
+   (the repair of F10), and the result never is the old canonical column, for each of the setsum
+   primes as re-extracted from the source.  Missing: the string-level plumbing (position of the
+   character -> byte -> column; the other seven columns are untouched).  The tamper campaign of
+   checks/c04.py exercises exactly this on the real code and on the extracted from_hexdigest. *)
+Theorem C04_hex_digit_tamper_changes_column_partial : forall p c c' d pos,
+  In p primes -> c < p -> 1 <= d <= 15 -> pos < 8 ->
+  (c' = c + d * 16 ^ pos \/ c = c' + d * 16 ^ pos) -> reduce_col p c' <> c.
+Proof.
+  intros p c c' d pos Hp Hc Hd Hpos Hch.
+  exact (digit_change_changes_column p c c' (d * 16 ^ pos) Hp (in_digit_deltas d pos Hd Hpos) Hc Hch).
 Qed.
 
 (* the same for a history of the store: its log satisfies the hypotheses of the two theorems above *)
